@@ -7,18 +7,19 @@ use super::*;
 use crate::verif_stubs as vs;
 
 const NP: usize = 3;
-#[repr(C, align(4096))]
+#[repr(C, align(8))]
 struct Page([u8; PAGE_SIZE]);
 /// harness side of the `Storage` trait: a fixed array of pages (the only non-TurDB code in the loop)
 struct Mem { pages: [Box<Page>; NP - 1] } // pages 1 and 2; page 0 (file header) is never requested
 impl Storage for Mem {
     fn page(&self, n: u32) -> eyre::Result<&[u8]> {
         assert!(n != 0); // the file-header page is never a freelist page
-        if (n as usize) < NP { Ok(&self.pages[n as usize - 1].0[..]) } else { Err(eyre::eyre!("page out of range")) }
+        // explicit two-way match: keeps the returned reference an if-then-else of two concrete objects
+        match n { 1 => Ok(&self.pages[0].0[..]), 2 => Ok(&self.pages[1].0[..]), _ => Err(eyre::eyre!("page out of range")) }
     }
     fn page_mut(&mut self, n: u32) -> eyre::Result<&mut [u8]> {
         assert!(n != 0); // the file-header page is never a freelist page
-        if (n as usize) < NP { Ok(&mut self.pages[n as usize - 1].0[..]) } else { Err(eyre::eyre!("page out of range")) }
+        match n { 1 => Ok(&mut self.pages[0].0[..]), 2 => Ok(&mut self.pages[1].0[..]), _ => Err(eyre::eyre!("page out of range")) }
     }
     fn grow(&mut self, _n: u32) -> eyre::Result<()> { Ok(()) }
     fn page_count(&self) -> u32 { NP as u32 }
@@ -122,8 +123,12 @@ fn allocate_case(h0: u32, n0: u32) {
     if !(h0 == 2 && in_count) { assert!(m.pages[1].0[woff] == before2); }
     if size > 0 && c0 > 0 { assert!(t_count(&m, h0) == c0 - 1 && f.head_page == h0); }
     if size > 0 && c0 == 0 { assert!(f.head_page == n0); }
-    kani::cover!(size > 0 && c0 == 0);
-    kani::cover!(c0 == MAXE);
+    if h0 != 0 {
+        let cv1 = c0 == 0;
+        let cv2 = c0 == MAXE;
+        kani::cover!(cv1);
+        kani::cover!(cv2);
+    }
     core::mem::forget(m);
 }
 
@@ -137,7 +142,10 @@ fn release_case(h0: u32, n0: u32, trunk_p: u32) {
     let c0 = if h0 != 0 { t_count(&m, h0) } else { 0 };
     let becomes_trunk = h0 == 0 || c0 >= MAXE;
     kani::assume(becomes_trunk == (trunk_p != 0));
-    let p: u32 = if trunk_p != 0 { trunk_p } else { kani::any() };
+    // entry case: p is only a *value* stored in the entry array; it ranges over every page number outside
+    // the 2-page harness store (p >= 3), which keeps the infeasible create_new_trunk path free of writes
+    // through a symbolic page reference (that path costs CBMC > 24 GB otherwise)
+    let p: u32 = if trunk_p != 0 { trunk_p } else { let q: u32 = kani::any(); kani::assume(q >= NP as u32); q };
     kani::assume(p != 0 && p != h0 && p != n0);   // p is not currently free as a trunk page
     let old_top = if size > 0 { Some(top(&f, &m)) } else { None };
     let wi: u32 = kani::any();
